@@ -395,4 +395,47 @@ def uuidString (u : Bytes) : Bytes :=
   hexOf (u.take 4) ++ [45] ++ hexOf ((u.drop 4).take 2) ++ [45] ++ hexOf ((u.drop 6).take 2) ++ [45] ++
   hexOf ((u.drop 8).take 2) ++ [45] ++ hexOf (u.drop 10)
 
+/-! ## net.IP.String (unmarshalInet into *string) -/
+
+def hexNoLead (n : Nat) : Bytes :=
+  if n < 16 then [hexChar n] else hexNoLead (n / 16) ++ [hexChar (n % 16)]
+
+def groups16 : Bytes → List Nat
+  | a :: b :: r => (a.toNat * 256 + b.toNat) :: groups16 r
+  | _ => []
+
+def zeroPrefix : List Nat → Nat
+  | 0 :: r => zeroPrefix r + 1
+  | _ => 0
+
+/-- the first longest run (length ≥ 2) of zero groups: (start, end) -/
+def bestZeroRun : List Nat → Nat → Option (Nat × Nat) → Option (Nat × Nat)
+  | [], _, best => best
+  | g :: r, i, best =>
+    let l := zeroPrefix (g :: r)
+    let better : Bool := decide (l ≥ 2) && (match best with | some (s, e) => decide (l > e - s) | none => true)
+    bestZeroRun r (i+1) (if better then some (i, i + l) else best)
+
+def joinColon : List Nat → Bytes
+  | [] => []
+  | [g] => hexNoLead g
+  | g :: r => hexNoLead g ++ [58] ++ joinColon r
+
+def ip6String (b : Bytes) : Bytes :=
+  let gs := groups16 b
+  match bestZeroRun gs 0 none with
+  | none => joinColon gs
+  | some (s, e) => joinColon (gs.take s) ++ [58, 58] ++ joinColon (gs.drop e)
+
+def ip4String (b : Bytes) : Bytes :=
+  match b with
+  | [a, b, c, d] => natDigits a.toNat ++ [46] ++ natDigits b.toNat ++ [46] ++ natDigits c.toNat ++ [46] ++ natDigits d.toNat
+  | _ => []
+
+/-- `net.IP(data).String()` as unmarshalInet calls it (data non-empty) -/
+def ipString (data : Bytes) : Bytes :=
+  match ipTo4 data with
+  | some v4 => ip4String v4
+  | none => if data.length = 16 then ip6String data else [63] ++ hexOf data
+
 end Marshal
